@@ -748,8 +748,28 @@ class Processor:
         - `YAMLPathException` when the operation would destroy the entire
            document
         """
+        # Delete every matched node only once and -- within any one list --
+        # from its highest index down, however the nodes were gathered.
+        seen_refs = set()
+        unique_nodes: List[NodeCoords] = []
+        for delete_nc in delete_nodes:
+            ref = delete_nc.parentref
+            if isinstance(delete_nc.parent, list) and isinstance(ref, int):
+                if ref < 0:
+                    ref += len(delete_nc.parent)
+                delete_nc.parentref = ref
+            ref_key = (id(delete_nc.parent), str(type(ref)), str(ref))
+            if delete_nc.parent is not None and ref_key in seen_refs:
+                continue
+            seen_refs.add(ref_key)
+            unique_nodes.append(delete_nc)
+        unique_nodes.sort(
+            key=lambda nc: nc.parentref
+            if isinstance(nc.parent, list) and isinstance(nc.parentref, int)
+            else -1)
+
         # pylint: disable=locally-disabled,too-many-nested-blocks
-        for delete_nc in reversed(delete_nodes):
+        for delete_nc in reversed(unique_nodes):
             node = delete_nc.node
             parent = delete_nc.parent
             parentref = delete_nc.parentref
